@@ -30,6 +30,8 @@ def replay(path):
     return 0
 
 
+GROUPS = {"A": "A", "C": "C", "G": "G", "T": "T", "R": "AG", "Y": "CT", "W": "AT", "S": "CG", "M": "AC", "K": "GT",
+          "B": "CGT", "V": "ACG", "D": "AGT", "H": "ACT", "N": "ACGT"}
 ANON = re.compile(r"((?:[\w]+-)*)_Anon(\d+)")
 
 
@@ -116,7 +118,35 @@ def run(st, tier, seed):
             for inc in b.includes:
                 os.makedirs(os.path.join(root, "proj", inc), exist_ok=True)
             outs = {}
-            seeds_cycle = ["0", "1", "12345", "random"]
+            seeds_cycle = ["0", "1", "12345", "random", "6", "7", "2", "11"]
+            seeds_cycle = seeds_cycle[(i * 3) % 8:] + seeds_cycle[:(i * 3) % 8]     # programs start at different points of the cycle
+            # a third of the programs are compiled with a --fixed file (the same one in every configuration) that narrows some
+            # named sequences with bases and with the degenerate letters a fixed file may carry (S, N)
+            fixed_lines = []
+            if not getattr(b, "directed", False) and rng.random() < 0.35:
+                r0 = impl.compile_bundle(b, "pil")
+                if r0["ok"]:
+                    st0 = pilio.read_pil(r0["text"])
+                    sig_names = {s_["items"][0] for s_ in st0 if s_["k"] == "equal" and s_["items"]}
+                    cands = [s_ for s_ in st0 if s_["k"] == "seq" and "_Anon" not in s_["name"] and s_["tmpl"] and s_["name"] not in sig_names
+                             and set(s_["tmpl"]) <= set(GROUPS)]
+                    rng.shuffle(cands)
+                    with_n = rng.random() < 0.35     # most files: bases and a few S (two-base sets); some also N
+                    for s_ in cands[:rng.randint(1, 3)]:
+                        letters = []
+                        for c_ in s_["tmpl"]:
+                            r_ = rng.random()
+                            if r_ < 0.2 and set("CG") <= set(GROUPS[c_]):
+                                letters.append("S")
+                            elif r_ < 0.3 and with_n:
+                                letters.append("N")
+                            else:
+                                letters.append(rng.choice(GROUPS[c_]))
+                        fixed_lines.append("sequence %s = %s" % (s_["name"], "".join(letters)))
+                if fixed_lines:
+                    with open(os.path.join(root, "proj", "fixed.fix"), "w") as f:
+                        f.write("\n".join(fixed_lines) + "\n")
+                    res.count("with-fixed-file")
             # counter sweep: one earlier compile (a component with exactly k anonymous regions) puts the process's anonymous
             # counter at k, so that this program's anonymous numbers straddle a decimal boundary (9|10, 99|100, 999|1000)
             n_anon = len(set(re.findall(r'"[^"]*"', "\n".join(b.texts.values())))) or 1
@@ -148,21 +178,29 @@ def run(st, tier, seed):
                                          "includes": [os.path.relpath(os.path.join(root, "hist%d" % k, x), cwd) for x in hist[k].includes],
                                          "out": os.path.relpath(os.path.join(root, "hist%d" % k, "o.pil"), cwd),
                                          "save": os.path.relpath(os.path.join(root, "hist%d" % k, "o.save"), cwd)}) for k in range(nh)]}
-                    hs = seeds_cycle[c % 4]      # every program sees all the hash seeds
+                    hs = seeds_cycle[c % 8]
                     runs.append((fmt, c, where, cwd, job, hs, nh))
             for c, k in enumerate(ks):
                 for fmt in (("pil", "des") if c % 2 == 0 or tier != "quick" else ("pil",)):
                     cwd = os.path.join(root, "proj")
                     job = {"entry": b.entry, "includes": list(b.includes), "fmt": fmt, "out": "k%d.%s" % (k, fmt), "save": "k%d.save" % k,
                            "history": [{"cwd": os.path.join(root, "warm%d" % k), "entry": "warm", "includes": [], "out": "o.pil", "save": "o.save"}]}
-                    runs.append((fmt, "k%d" % k, "proj", cwd, job, seeds_cycle[c % 4], "warm-%d-anon" % k))
+                    runs.append((fmt, "k%d" % k, "proj", cwd, job, seeds_cycle[c % 8], "warm-%d-anon" % k))
+            if fixed_lines:
+                # set-iteration order is where a hash seed shows: programs with a fixed file see every seed of the cycle
+                for hs_ in seeds_cycle:
+                    cwd = os.path.join(root, "proj")
+                    runs.append(("pil", "h" + hs_, "proj", cwd, {"entry": b.entry, "includes": list(b.includes), "fmt": "pil", "out": "h%s.pil" % hs_,
+                                                                 "save": "h%s.save" % hs_, "history": []}, hs_, 0))
             for fmt, c, where, cwd, job, hs, nh in runs:
                 if True:
+                    if fixed_lines:
+                        job["fixed"] = os.path.relpath(os.path.join(root, "proj", "fixed.fix"), cwd)
                     env = dict(os.environ, PYTHONHASHSEED=hs, PYTHONPATH=core.REPO, PEPPER_REPO=core.REPO, PYTHONDONTWRITEBYTECODE="1")
                     p = subprocess.run([sys.executable, worker, json.dumps(job)], cwd=cwd, env=env, capture_output=True, text=True, timeout=300)
                     res.evaluations += 1
                     res.count("cwd:" + where); res.count("hashseed:" + hs); res.count("history:%s" % (nh if isinstance(nh, int) else "counter-sweep"))
-                    conf = {"format": fmt, "cwd": where, "hashseed": hs, "earlier_compiles": nh, "anon_counter_before": None, "includes": job["includes"], "entry": job["entry"]}
+                    conf = {"format": fmt, "cwd": where, "hashseed": hs, "earlier_compiles": nh, "anon_counter_before": None, "fixed_file": fixed_lines or None, "includes": job["includes"], "entry": job["entry"]}
                     inp = {"files": b.texts, "config": conf}
                     if p.returncode != 0:
                         res.violations.append({"what": "compile crashed in a subprocess", "input": inp, "observed": p.stderr[-400:], "sig": "C18:crash", "cmd": "pepper-compiler"})
@@ -181,7 +219,8 @@ def run(st, tier, seed):
                         res.violations.append({"what": "object name defined twice: %r" % d[:3], "input": inp, "sig": "C18:duplicate-name", "cmd": "pepper-compiler"})
                     outs.setdefault(key, []).append((conf, canon_text(r["text"])))
                     if drv is not None and where == "proj" and fmt == "pil" and not getattr(b, "directed", False):
-                        rq = progen.compile_request(b, fmt, anon=r["anon_before"])
+                        fx = [{"kind": "sequence", "name": l_.split()[1], "seq": l_.split()[3]} for l_ in fixed_lines]
+                        rq = progen.compile_request(b, fmt, anon=r["anon_before"], fixed=fx)
                         reqs.append(rq); meta.append((inp, impl.canon_lines(r["text"])))
             for key, lst in outs.items():
                 ref_conf, ref = lst[0]
